@@ -40,7 +40,8 @@ META = {
 R = stoppers.DaemonStoppingReason
 
 
-def h_stop_stage(already: bool, age: int, has_bo: bool, bo: int, has_to: bool, to: int, done: bool, is_timer: bool) -> bool:
+def h_stop_stage(already: bool, age: int, has_bo: bool, bo: int, has_to: bool, to: int, done: bool, is_timer: bool,
+                 pre_signalled: bool = False, pre_cancelled: bool = False) -> bool:
     """
     pre: age >= 0 and bo >= 0 and to >= 0
     post: _ == True
@@ -83,6 +84,11 @@ def h_stop_stage(already: bool, age: int, has_bo: bool, bo: int, has_to: bool, t
         if already:
             stopper.set(reason=R.RESOURCE_DELETED)
             stopper.when = loop.time() - age
+            # an arbitrary earlier stage of the termination may have been reached by previous cycles (one step from any state)
+            if pre_signalled or pre_cancelled:
+                stopper.set(reason=R.DAEMON_SIGNALLED)
+            if pre_cancelled:
+                stopper.set(reason=R.DAEMON_CANCELLED)
         d = daemons.Daemon(task=task, logger=logging.getLogger('x'), handler=handler, stopper=stopper)
         delays = await daemons.stop_daemons(settings=settings, daemons={'d': d})
         reason = stopper.reason
@@ -90,11 +96,12 @@ def h_stop_stage(already: bool, age: int, has_bo: bool, bo: int, has_to: bool, t
         return list(delays), reason
     delays, reason = loop.run(main())
     eff_age = age if already else 0
+    was_cancelled = already and pre_cancelled       # the task was cancelled by an earlier cycle: it is not cancelled again
     ok = bool(reason & R.RESOURCE_DELETED)
     bo_ = bo if has_bo else None
     to_ = to if has_to else None
     if done:
-        ok = ok and delays == [] and not cancelled and not (reason & (R.DAEMON_CANCELLED | R.DAEMON_ABANDONED))
+        ok = ok and delays == [] and not cancelled and not (reason & R.DAEMON_ABANDONED) and (was_cancelled or not (reason & R.DAEMON_CANCELLED))
     else:
         # the statement: flag first; cancellation not before the backoff; abandonment not before backoff+timeout
         if cancelled and not (eff_age >= (bo_ or 0)):
@@ -105,7 +112,7 @@ def h_stop_stage(already: bool, age: int, has_bo: bool, bo: int, has_to: bool, t
             ok = ok and bool(reason & R.DAEMON_SIGNALLED) and not cancelled and delays == [bo_ - eff_age]
             vkopf.witness('signalled')
         elif to_ is not None and eff_age < to_ + (bo_ or 0):
-            ok = ok and bool(reason & R.DAEMON_CANCELLED) and len(cancelled) == 1 and delays == [to_ + (bo_ or 0) - eff_age]
+            ok = ok and bool(reason & R.DAEMON_CANCELLED) and len(cancelled) == (0 if was_cancelled else 1) and delays == [to_ + (bo_ or 0) - eff_age]
             vkopf.witness('cancelled')
         elif to_ is not None:
             ok = ok and bool(reason & R.DAEMON_ABANDONED) and delays == []
